@@ -29,8 +29,12 @@ EXTENDS Integers, Sequences, FiniteSets, TLC, Json
 \* A BYZANTINE reference dealer commits to P with its vector and takes shares and answers from a RELATED polynomial Q: well-formed,
 \* inconsistent, and chosen so that a slip in the evaluation of the vector (a skipped factor, a shifted index, a lost sign) could
 \* make the two agree.  Every honest receiver complains, finds the answer wrong and disqualifies the dealer.
-Relations == {"none", "div-x", "mul-x", "shift-1", "shift+1", "neg", "plus-c", "double", "reverse"}
-Shapes == {"generic", "zero-const", "zero-middle", "zero-lead", "root", "equal", "rminus1", "two-zeros", "cancel"}
+Relations == {"none", "div-x", "mul-x", "shift-1", "shift+1", "neg", "plus-c", "double", "reverse",
+              "garbage-after-identity",       \* a malformed vector: A_0, the identity, then bytes that encode no point; every share is a_0
+              "two-answers-before-vector"}    \* two receivers are sent malformed shares and complain; both complaints are answered before the
+                                              \* vector is broadcast, one answer right, one wrong
+Shapes == {"generic", "zero-const", "zero-middle", "zero-lead", "root", "equal", "rminus1", "two-zeros", "cancel",
+           "own-root"}   \* Joint-Feldman, a rushing dealer: P(own point) = minus the sum of the shares the others sent it: its own summed share is zero
 \* (protocol, n, t, reference dealer, participant that is not running or -1)
 Nets == {<<"qual", 3, 1, 0, -1>>, <<"qual", 4, 2, 1, -1>>, <<"qual", 4, 2, 3, 2>>, <<"qual", 5, 3, 0, 4>>, <<"qual", 6, 2, 5, 1>>,
          <<"qual", 4, 1, 0, 3>>, <<"jf", 3, 1, 0, -1>>, <<"jf", 4, 2, 2, -1>>, <<"jf", 5, 3, 4, -1>>,
@@ -41,14 +45,18 @@ Applicable(net, shape) ==
   /\ (shape = "root" => net[5] >= 0 /\ net[1] = "qual")
   /\ (shape = "cancel" <=> (net[1] = "jf" /\ net[5] >= 0))
   /\ (shape \in {"zero-middle", "two-zeros"} => net[3] >= 2)
+  /\ (shape = "own-root" => net[1] = "jf" /\ net[5] < 0)
 RelApplicable(shape, rel) ==
   CASE rel = "none"  -> TRUE
     [] rel = "div-x" -> shape = "zero-const"            \* Q = P / x is a polynomial only then
+    [] rel = "garbage-after-identity" -> shape = "zero-middle"
+    [] rel = "two-answers-before-vector" -> shape = "generic"
     [] OTHER         -> shape = "generic"
 Init == c \in {[proto |-> net[1], n |-> net[2], t |-> net[3], dealer |-> net[4], silent |-> net[5], shape |-> s, order |-> o, relation |-> r] :
                  net \in Nets, s \in Shapes, o \in 0..2, r \in Relations}
         /\ Applicable(<<c.proto, c.n, c.t, c.dealer, c.silent>>, c.shape)
         /\ RelApplicable(c.shape, c.relation)
+        /\ (c.relation = "two-answers-before-vector" => c.proto = "qual" /\ c.n - 1 - (IF c.silent >= 0 THEN 1 ELSE 0) >= 3)
         /\ (c.relation # "none" => c.order \in {0, 1})
 Next == UNCHANGED c
 Spec == Init /\ [][Next]_c
@@ -56,7 +64,7 @@ Spec == Init /\ [][Next]_c
 Disqualified(x) == x.relation # "none"            \* by every honest receiver (C08); its polynomial then counts for nothing (C07)
 GroupKeyIsIdentity(x) == (x.proto = "qual" /\ x.shape = "zero-const") \/ x.shape = "cancel"
 Outcome(x) == IF Disqualified(x) THEN (IF x.proto = "qual" THEN "fail" ELSE "keys") ELSE IF GroupKeyIsIdentity(x) THEN "fail" ELSE "keys"
-IdentityShare(x) == IF x.shape = "root" THEN x.silent ELSE -1
+IdentityShare(x) == IF x.shape = "root" THEN x.silent ELSE IF x.shape = "own-root" THEN x.dealer ELSE -1
 
 \* sanity of the matrix: every shape is exercised in both protocols where it applies, and both outcomes occur
 Emit == PrintT(<<"CASE", ToJson([proto |-> c.proto, n |-> c.n, t |-> c.t, dealer |-> c.dealer, silent |-> c.silent, shape |-> c.shape,
